@@ -326,6 +326,11 @@ func DisplayLine(l *Line, indent int) {
 	}
 
 	for num, line := range lines {
+		// Does the line end on the last column of a row ?
+		// The cursor is then still on that column, not after it.
+		endCol, _ := strutil.LineSpan([]rune(line), num, indent)
+		atMargin := endCol == 0 && strutil.RealLength(line)+indent > 0
+
 		// Don't let any visual selection go further than length.
 		line += color.BgDefault
 
@@ -335,9 +340,10 @@ func DisplayLine(l *Line, indent int) {
 			line = term.ClearLineBefore + line
 		}
 
-		// Clear everything after each line, except the last.
+		// Clear everything after each line, except the last, and except
+		// from the last column (which would erase the last character).
 		if num < len(lines)-1 {
-			if len(line)+indent < term.GetWidth() {
+			if !atMargin {
 				line += term.ClearLineAfter
 			}
 
